@@ -292,7 +292,95 @@ def strategy(tier):
     return _cases()
 
 
+def run_live(case):
+    """The filter behind the REAL observer (watchdog_drf.DirWatcher): finalized files that a listing shows must reach the
+    handler as creations - whether they were published while the watch was up (tmp. name, then rename) or were already
+    inside a watched directory that appeared (or came back) as a whole.  See vlib/live.py for how verdicts are taken."""
+    import shutil
+    import time
+    from digital_rf import watchdog_drf
+    from vlib import live
+
+    res = Result()
+    res.nontrivial = True
+    res.cls("live:" + case["live"])
+    drf = rfharness.drf()
+    with rfharness.scratch("c15l") as base:
+        root = os.path.join(base, "data", "root")
+        os.makedirs(os.path.join(base, "data"))
+        os.makedirs(os.path.join(base, "area"))
+        blob = os.path.join(base, "blob")
+        with open(blob, "wb") as f:
+            f.write(b"\0" * 700)
+
+        def build(top, nfiles):
+            for ch, prop in (("chrf", "drf_properties.h5"), ("chdmd", "dmd_properties.h5")):
+                os.makedirs(os.path.join(top, ch, SUB_OK), exist_ok=True)
+                shutil.copyfile(blob, os.path.join(top, ch, prop))
+            for i in range(nfiles):
+                live.publish(blob, os.path.join(top, "chrf", SUB_OK, "rf@%d.000.h5" % (T + i)))
+                shutil.copyfile(blob, os.path.join(top, "chdmd", SUB_OK, "md@%d.h5" % (T + 2 * i)))
+            shutil.copyfile(blob, os.path.join(top, "chrf", SUB_OK, "tmp.rf@%d.000.h5" % (T + 9)))
+
+        log = []
+        h = make_handler((True, True, True, True), (None, None, False), log)
+        if case["live"] != "late-root":
+            build(root, 3)
+        watcher = watchdog_drf.DirWatcher(root, force_polling=bool(case.get("polling")))
+        watcher.schedule(h, root, recursive=True)
+        import contextlib
+        import io
+        with contextlib.redirect_stdout(io.StringIO()):
+            watcher.start()
+        try:
+            if case["live"] == "late-root":
+                build(os.path.join(base, "area", "incoming"), 3)
+                time.sleep(0.3)
+                os.rename(os.path.join(base, "area", "incoming"), root)
+            elif case["live"] == "root-replaced":
+                time.sleep(0.3)
+                shutil.rmtree(root)
+                time.sleep(0.5)
+                build(os.path.join(base, "area", "incoming"), 3)
+                os.rename(os.path.join(base, "area", "incoming"), root)
+            time.sleep(0.3)
+            for i in (3, 4):
+                live.publish(blob, os.path.join(root, "chrf", SUB_OK, "rf@%d.000.h5" % (T + i)))
+            # what a listing shows now must have been delivered as creations (files that were there before the watcher
+            # started - scenario existing-then-live - are the business of whoever starts it, e.g. mirror.start())
+            listed = set(drf.lsdrf(root))
+            if case["live"] == "existing-then-live":
+                listed = {p for p in listed if os.path.basename(p) in ("rf@%d.000.h5" % (T + 3), "rf@%d.000.h5" % (T + 4))}
+
+            def created():
+                return {e[1] for e in list(log) if e[0] == "created"} | {e[2] for e in list(log) if e[0] == "moved"}
+
+            if not live.wait_for(lambda: listed <= created(), 15):
+                sent = os.path.join(root, "chrf", SUB_OK, "rf@%d.000.h5" % (T + 7))
+                live.publish(blob, sent)
+                if live.wait_for(lambda: sent in created(), 15):
+                    time.sleep(1.0)
+                    if not listed <= created():
+                        res.fail("live-creation-not-delivered:" + case["live"], "%d of %d listed files never reached the handler as a creation although a file published later did: %s" % (
+                            len(listed - created()), len(listed), sorted(os.path.relpath(p, root) for p in listed - created())[:3]))
+                else:
+                    res.cls("live-inconclusive")
+            bad = [e for e in list(log) if os.path.basename(e[1]).startswith("tmp.") or (e[2] and os.path.basename(e[2]).startswith("tmp."))]
+            if bad:
+                res.fail("live-tmp-event-delivered:" + case["live"], "%r" % (bad[:2],))
+        finally:
+            try:
+                watcher.stop()
+                watcher.join(5)
+            except Exception:
+                pass
+        res.evaluations = len(log)
+    return res
+
+
 def run_case(case):
+    if case.get("live"):
+        return run_live(case)
     res = Result()
     paths = [tuple(p) for p in case["paths"]]
     with rfharness.scratch("c15") as base:
@@ -318,7 +406,8 @@ def run_case(case):
 def directed_cases(tier):
     # the writer's finalizing rename, and a rename of a tracked file to a non-matching name
     return [{"paths": [["chrf", SUB_OK, "tmp.rf@%d.000.h5" % T], ["chrf", SUB_OK, "rf@%d.000.h5" % T]], "flags": [True, True, True, True], "win": [None, None]},
-            {"paths": [["chrf", SUB_OK, "rf@%d.000.h5" % T], ["chrf", SUB_OK, "rf@%d.000.h5.bak" % T]], "flags": [True, False, False, False], "win": [0, 0]}]
+            {"paths": [["chrf", SUB_OK, "rf@%d.000.h5" % T], ["chrf", SUB_OK, "rf@%d.000.h5.bak" % T]], "flags": [True, False, False, False], "win": [0, 0]},
+            {"live": "existing-then-live"}, {"live": "late-root"}, {"live": "root-replaced"}]
 
 
 def extra(tier, seed, camp):
@@ -347,6 +436,8 @@ def extra(tier, seed, camp):
 
 
 def shrink_candidates(case):
+    if case.get("live"):
+        return
     ps = case["paths"]
     if len(ps) > 2:
         for i in range(len(ps)):
